@@ -38,23 +38,35 @@ theorem C19_typed_zero (ordOf : Int → Int) (mx : Rat) (hmx : 0 < mx) :
   · have := (numDist_zero_iff _ _ mx hmx).1 h; exact_mod_cast this
   · exact scale a b ((numDist_zero_iff _ _ mx hmx).1 h)
 
-/-- times: 0 exactly when the whole-second parts agree (`_partial`: the property asks for
-"0 only for equal values"; see the negative witness below) -/
-theorem C19_time_zero_partial (ordOf : Int → Int) (mx : Rat) (hmx : 0 < mx) (h m s u h' m' s' u' : Nat) :
-    typedDist ordOf (.time h m s u) (.time h' m' s' u') mx = some 0 ↔
-      (h * 60 + m) * 60 + s = (h' * 60 + m') * 60 + s' := by
-  simp only [typedDist, Option.some.injEq, numDist_zero_iff _ _ mx hmx, timeToSeconds]
+/-- times: 0 exactly for equal times (hours, minutes, seconds and microseconds), for valid fields -/
+theorem C19_time_zero (ordOf : Int → Int) (mx : Rat) (hmx : 0 < mx) (h m s u h' m' s' u' : Nat)
+    (hm : m < 60) (hs : s < 60) (hu : u < 1000000) (hm' : m' < 60) (hs' : s' < 60) (hu' : u' < 1000000) :
+    typedDist ordOf (.time h m s u) (.time h' m' s' u') mx = some 0 ↔ (h = h' ∧ m = m' ∧ s = s' ∧ u = u') := by
+  simp only [typedDist, Option.some.injEq, numDist_zero_iff _ _ mx hmx]
+  have key : ∀ (a b c d : Nat), c < 1000000 → d < 1000000 →
+      (if c = 0 then ((a : Nat) : Rat) else ((a : Nat) : Rat) + (c : Rat) / 1000000) =
+      (if d = 0 then ((b : Nat) : Rat) else ((b : Nat) : Rat) + (d : Rat) / 1000000) → a = b ∧ c = d := by
+    intro a b c d hc hd h
+    have e : ((a * 1000000 + c : Nat) : Rat) = ((b * 1000000 + d : Nat) : Rat) := by
+      push_cast
+      by_cases hc0 : c = 0 <;> by_cases hd0 : d = 0 <;> simp only [hc0, hd0, if_true, if_false] at h ⊢ <;>
+        (try simp only [Nat.cast_zero, add_zero]) <;> linarith
+    have e' : a * 1000000 + c = b * 1000000 + d := by exact_mod_cast e
+    omega
+  unfold timeToSeconds
   constructor
-  · intro h1; exact_mod_cast h1
-  · intro h1; exact_mod_cast congrArg (Nat.cast : Nat → Rat) h1
+  · intro h1
+    obtain ⟨e1, e2⟩ := key _ _ _ _ hu hu' h1
+    refine ⟨?_, ?_, ?_, e2⟩ <;> omega
+  · rintro ⟨rfl, rfl, rfl, rfl⟩
+    rfl
 
-/-- **Negative witness (finding F24).** Two different times that differ only below the second have
-distance 0 (`time_to_seconds` drops microseconds). -/
-theorem C19_N_time_microseconds (ordOf : Int → Int) :
-    typedDist ordOf (.time 1 2 3 1) (.time 1 2 3 2) 1 = some 0 ∧ Val.time 1 2 3 1 ≠ Val.time 1 2 3 2 := by
-  constructor
-  · simp [typedDist, numDist]
-  · decide
+/-- the fix of finding F24, in the model: times that differ only in microseconds have a positive distance -/
+theorem C19_time_microseconds (ordOf : Int → Int) :
+    typedDist ordOf (.time 1 2 3 1) (.time 1 2 3 2) 1 ≠ some 0 := by
+  intro h
+  have := (C19_time_zero ordOf 1 (by norm_num) 1 2 3 1 1 2 3 2 (by norm_num) (by norm_num) (by norm_num) (by norm_num) (by norm_num) (by norm_num)).1 h
+  omega
 
 /-- **Negative witness (finding F25).** A datetime and a date on the same day have distance 0
 although they are different values: both are `date` instances, so the ordinal distance is used. -/
